@@ -16,6 +16,7 @@ import (
 	"github.com/bluenviron/gortsplib/v5/pkg/description"
 	"github.com/bluenviron/gortsplib/v5/pkg/headers"
 	"github.com/bluenviron/gortsplib/v5/pkg/mikey"
+	"github.com/bluenviron/gortsplib/v5/pkg/zverif/vtime"
 
 	"verif/internal/sysx"
 )
@@ -357,19 +358,30 @@ func (t *tcpTap) reset() {
 	t.mu.Unlock()
 }
 
-// withHang runs f. While f has not returned, virtual time is moved on second by second (Env.Advance waits for
-// the library to be quiescent before every step), so that an operation that can only end through one of the
-// library's own timeouts does end; real time is only the final hang detector.
-func withHang(env *sysx.Env, f func() error) (error, bool) {
+// withHang runs f and waits for it. Operations that are expected to end on their own (pump=false) are first
+// given the hang limit of real time. Then - or at once when the operation can only end through one of the
+// library's own timeouts (pump=true: both ends of a scheme mismatch wait for bytes that never come) - virtual
+// time is moved on in steps of one second with a short real pause after each step, until f returns or two
+// virtual minutes have passed. The pauses are liveness only: no verdict depends on how far the library got.
+// (sysx.Env.Advance is not usable here: its quiescence barrier counts a goroutine that waits for crypto/tls's
+// handshake mutex as busy, and that goroutine stays there until the blocked handshake read times out.)
+func withHang(f func() error, pump bool) (error, bool) {
 	ch := make(chan error, 1)
 	go func() { ch <- f() }()
-	for i := 0; i < 90; i++ {
+	if !pump {
 		select {
 		case err := <-ch:
 			return err, true
-		default:
+		case <-time.After(sysx.HangLimit):
 		}
-		env.Advance(time.Second)
+	}
+	for i := 0; i < 120; i++ {
+		vtime.Advance(time.Second)
+		select {
+		case err := <-ch:
+			return err, true
+		case <-time.After(20 * time.Millisecond):
+		}
 	}
 	select {
 	case err := <-ch:
@@ -447,7 +459,7 @@ func (a *admit) clientRow(name string, srvTLS bool, scheme, proto string) {
 	})
 	defer c.Close()
 	u := sysx.MustURL(scheme + "://127.0.0.1:8554/stream")
-	err, returned := withHang(env, func() error {
+	err, returned := withHang(func() error {
 		if err := c.Start(); err != nil {
 			return err
 		}
@@ -460,7 +472,7 @@ func (a *admit) clientRow(name string, srvTLS bool, scheme, proto string) {
 		}
 		_, err = c.Play(nil)
 		return err
-	})
+	}, (scheme == "rtsps") != srvTLS)
 	a.out.Evals++
 	a.out.Nontrivial = append(a.out.Nontrivial, name)
 	if !returned {
@@ -598,14 +610,14 @@ func (a *admit) redirects() {
 				})
 				u := sysx.MustURL(fmt.Sprintf("%s://127.0.0.1:8554/stream?c=%d&l=%s", scheme, code, l))
 				var d *description.Session
-				err, returned := withHang(env, func() error {
+				err, returned := withHang(func() error {
 					if err := c.Start(); err != nil {
 						return err
 					}
 					var err error
 					d, _, err = c.Describe(u)
 					return err
-				})
+				}, false)
 				c.Close()
 				a.out.Evals++
 				a.out.Nontrivial = append(a.out.Nontrivial, name)
